@@ -439,7 +439,8 @@ def headers_for(tier):
     # "strings": element {char, wchar_t, unsigned char, signed char} x cv-placement/declarator
     # {T*, const T*, T*const, const T*const, T*&, const T*&, T[8], const T[8]} (+ typedef of each)
     # x role {parameter, return, data member}
-    hs = [("plain", plain), ("nasty", nasty), ("strings", L.GROUPS["strings"])] + \
+    hs = [("plain", plain), ("nasty", nasty), ("strings", L.GROUPS["strings"]),
+          ("remaps", ["handles", "stringptrs"]), ("adv-bytevector", ["bytevector"])] + \
         [("adv-" + a, [a]) for a in L.GROUPS["adversarial"]]
     if tier == "thorough":
         hs.append(("all-reversed", list(reversed(plain + nasty))))
@@ -492,6 +493,8 @@ def main():
             for (hn, o), res in pmap(run1, jobs[i:i + 128]):
                 key = "%s|%s" % (hn, o.key)
                 st = res["status"]
+                if st == "empty":      # no atom of this header applies to the option set
+                    continue
                 if st == "rejected":
                     outcome = "tool-rejects-options"
                 elif st == "noexit0":
@@ -517,7 +520,8 @@ def main():
         aopts = [L.Opt.from_key(k) for k in ("c+fnames", "python+fnames", "python-native",
                                              "c+string+promiscuous", "python+string+promiscuous",
                                              "python-native+string+promiscuous")]
-        ajobs = [(a.name, o) for o in aopts for a in L.ATOMS if a.group != "adversarial"]
+        ajobs = [(a.name, o) for o in aopts for a in L.ATOMS
+                 if a.group != "adversarial" and a.name not in ("bytevector", "refcount")]
 
         def runa(j):
             a, o = j
